@@ -533,3 +533,67 @@ def _hyp_version():
         return hypothesis.__version__
     except Exception:
         return "?"
+
+
+# ---- stateful support ------------------------------------------------------------------------
+def apply_op(module, state, op, ctx, case):
+    """Execute one operation of a history; stray aspire exceptions become bucketed violations."""
+    try:
+        return module.apply(state, op, ctx, case)
+    except Violation:
+        raise
+    except Exception as e:  # noqa: BLE001
+        if type(e).__module__.startswith("hypothesis"):
+            raise
+        frame = aspire_frame(e)
+        if frame is None:
+            raise HarnessError(
+                f"harness exception in apply({op.get('op')}): {type(e).__name__}: {e}\n" + traceback.format_exc()
+            ) from e
+        ctx.fail(f"{op.get('op')}:raised:{type(e).__name__}@{frame}", f"{type(e).__name__}: {e}", case,
+                 op=op, exc=repr(e), tb=traceback.format_exc()[-1200:])
+        return "known-exception"
+
+
+def replay_ops(module, case, ctx):
+    """run_case for op-sequence modules: new state, apply every op, finish."""
+    state = module.new_state()
+    try:
+        for op in case["ops"]:
+            apply_op(module, state, op, ctx, case)
+        return module.finish(state)
+    finally:
+        if hasattr(module, "cleanup"):
+            module.cleanup(state)
+
+
+def ops_machine_base(module, ctx, last):
+    """Base RuleBasedStateMachine: subclasses add @rule methods that call self.do({...})."""
+    from hypothesis.stateful import RuleBasedStateMachine
+
+    class OpsMachine(RuleBasedStateMachine):
+        def __init__(self):
+            super().__init__()
+            self.ops = []
+            self.state = module.new_state()
+
+        def do(self, op):
+            self.ops.append(op)
+            case = {"ops": self.ops}
+            try:
+                return apply_op(module, self.state, op, ctx, case)
+            except Violation as v:
+                last["case"] = {"ops": list(self.ops)}
+                last["violation"] = v
+                raise
+
+        def teardown(self):
+            try:
+                res = module.finish(self.state)
+                if self.ops:
+                    ctx.record({"ops": list(self.ops)}, res)
+            finally:
+                if hasattr(module, "cleanup"):
+                    module.cleanup(self.state)
+
+    return OpsMachine
